@@ -497,3 +497,31 @@ def result_leaves(expr, _depth=0):
 
     rets(expr)
     return out
+
+
+def explicit_err_exit(parents):
+    """The fallible call whose ancestors are `parents` is the scrutinee of `if let Err(..) = call { <diverges> }` or of
+    `let Ok(..) = call else { <diverges> }`: its failure leaves the function on every path."""
+    from . import facts as F
+
+    def variants(pat):
+        return {v for _, v in (F.pat_variants(pat) or set())} if isinstance(pat, dict) else set()
+
+    for i in range(len(parents) - 1, -1, -1):
+        anc, key = parents[i]
+        if not isinstance(anc, dict):
+            continue
+        if anc.get("k") in ("DropTemps", "Use"):
+            continue
+        if anc.get("k") == "Let" and key == "init" and "Err" in variants(anc.get("pat")):
+            for j in range(i - 1, -1, -1):
+                a2, k2 = parents[j]
+                if isinstance(a2, dict) and a2.get("k") in ("DropTemps", "Use"):
+                    continue
+                return isinstance(a2, dict) and a2.get("k") == "If" and k2 == "cond" and diverges(a2["then"])
+            return False
+        if anc.get("s") == "Let" and key == "init" and variants(anc.get("pat")) == {"Ok"} and anc.get("els") is not None:
+            els = anc["els"]
+            return diverges(els if els.get("k") else {"k": "Block", "block": els})
+        return False
+    return False
